@@ -129,6 +129,7 @@ func runConcurrent(m *mon.M, c *Case, x *exec, rt *client.Runtime) {
 	}
 	registered.Wait()
 	sch.base = time.Now()
+	x.yield = sch.at // the caller's readers are scheduling points too (entered; body closed by the reader, reader not done yet)
 	verifhook.Set(sch.at)
 	close(start)
 	done.Wait()
@@ -197,6 +198,21 @@ func runConcurrent(m *mon.M, c *Case, x *exec, rt *client.Runtime) {
 	if c.RtCtx == "nil" {
 		m.Class("conc:runtime-context-nil")
 	}
+	if c.KeepAlive != "" {
+		m.Class("conc:keep-alive:" + c.KeepAlive)
+		closers := 0
+		for i := range c.Calls {
+			if c.Calls[i].ReaderClose != "" {
+				closers++
+			}
+		}
+		if closers > 0 {
+			m.Class("conc:keep-alive+readers-that-close-the-body")
+		}
+	}
+	if c.Entry != "" {
+		m.Class("conc:entry:" + c.Entry)
+	}
 	if len(evs) == 0 {
 		m.Class("conc:no-hook-events")
 	}
@@ -225,11 +241,8 @@ func runConcurrent(m *mon.M, c *Case, x *exec, rt *client.Runtime) {
 				alone = runAlone(c, call)
 			}
 			for _, f := range fs {
-				if hasSig(alone, f.sig) {
-					one := *call
-					one.Rounds = 0
-					m.Violate(f.sig, fmt.Sprintf("(first seen in a concurrent run, N=%d; reproduced by this call alone) %s", n, f.text),
-						&Case{Registry: c.Registry, DefaultMT: c.DefaultMT, RtCtx: c.RtCtx, TCP: c.TCP, Debug: c.Debug, TokenBody: c.TokenBody, BasePath: c.BasePath, Adapter: c.Adapter, Calls: []Call{one}})
+				if as := aloneSig(f.sig); hasSig(alone, as) {
+					m.Violate(as, fmt.Sprintf("(first seen in a concurrent run, N=%d; reproduced by this call alone) %s", n, f.text), c.single(call))
 					continue
 				}
 				m.Violate(f.sig, fmt.Sprintf("concurrent run (N=%d, GOMAXPROCS=%d), goroutine %d round %d: %s", n, procs, i, k, f.text), c)
@@ -250,6 +263,14 @@ func bucket(n int) int {
 	return 128
 }
 
+// aloneSig is the signature the finding has when the call is made alone: no other reader is there to close a body.
+func aloneSig(sig string) string {
+	for _, f := range []string{"+another-reader-closes-body", "another-reader-closes-body+", "/another-reader-closes-body"} {
+		sig = strings.Replace(sig, f, "", 1)
+	}
+	return sig
+}
+
 func hasSig(fs []finding, sig string) bool {
 	for _, f := range fs {
 		if f.sig == sig {
@@ -261,9 +282,7 @@ func hasSig(fs []finding, sig string) bool {
 
 // runAlone makes one call sequentially on a fresh Runtime configured like the case's.
 func runAlone(c *Case, call *Call) []finding {
-	one := *call
-	one.Rounds = 0
-	min := &Case{Registry: c.Registry, DefaultMT: c.DefaultMT, RtCtx: c.RtCtx, TCP: c.TCP, Debug: c.Debug, TokenBody: c.TokenBody, BasePath: c.BasePath, Adapter: c.Adapter, Calls: []Call{one}}
+	min := c.single(call)
 	x := prepare(min)
 	defer x.release()
 	rt := x.newRuntime()
